@@ -210,6 +210,8 @@ def step(ctx, i, op):
     expected, note = O.exec_model(ctx.model, op, refs, observed)
     ctx.res.stats["ops"] += 1
     ctx.res.stats["op_" + op["op"]] += 1
+    if op.get("pending"):
+        ctx.res.stats["clear_with_unfinished_request"] += 1
     if observed and observed[0] == "input_fault":
         ctx.res.stats["input_stream_faults"] += 1
         ctx.res.stats["input_stream_fault_left_" + observed[1]] += 1
